@@ -29,6 +29,9 @@ OPTEXT = {v: k for d in (ARITH, MULT, BITW, SHIFT) for k, v in d.items()}
 CMP = {"==": "Equals", "!=": "DoesNotEqual", "<": "IsLess", ">": "IsGreater", "<=": "IsLE", ">=": "IsGE"}
 CMPTEXT = {v: k for k, v in CMP.items()}
 BUILTINS = ["print", "abort", "format", "file", "line", "dbg", "panic", "eprint"]
+# both sides of every power of two that bounds an integer type
+BOUNDARY_INTS = sorted(set(v for b in (7, 8, 15, 16, 31, 32, 63, 64, 127, 128) for v in (2 ** b - 2, 2 ** b - 1, 2 ** b, 2 ** b + 1)
+                           if v < 2 ** 128))
 RESERVED = {"fn", "var", "const", "if", "goto", "loop", "else", "cast", "as", "import", "pub", "extern", "struct", "word8",
             "word16", "word32", "word64", "word128", "true", "false", "return", "_"} | set(PRIM_KW)
 ESC = {10: "\\n", 13: "\\r", 9: "\\t", 92: "\\\\", 39: "\\'", 34: '\\"', 0: "\\0"}
@@ -181,7 +184,8 @@ class G2:
         if c < 0.2:
             self.hit("lit:char")
             return ("char", r.randrange(0, 256))
-        v = r.choice([0, 1, 2, 17, 255, 256, 65536, 2 ** 32, 2 ** 64 - 1, 2 ** 127, 2 ** 128 - 1, r.randrange(0, 1 << r.randrange(1, 128))])
+        v = r.choice([0, 1, 2, 17, 255, 256, 65536, 2 ** 32, 2 ** 64 - 1, 2 ** 127, 2 ** 128 - 1, r.randrange(0, 1 << r.randrange(1, 128)),
+                      r.choice(BOUNDARY_INTS)])
         if r.random() < 0.35:
             self.hit("lit:int_suffixed")
             return ("int", v, PRIM_KW[r.choice(INT_SUFFIXES)])
